@@ -1,7 +1,8 @@
 Require Extraction.
 Require Import ExtrOcamlBasic.
-From Pygls Require Import Base.PyStr Model.Codec Spec.CodecSpec Model.Doc Spec.DocSpec.
+From Pygls Require Import Base.PyStr Model.Codec Spec.CodecSpec Model.Doc Spec.DocSpec Model.DocQuery.
 Extraction Language OCaml.
 Extraction "../ocaml/gen/c04_model.ml"
   lsp_lines run source d_version apply_incremental_change
-  spec_text spec_version spec_off valid_history guard_history.
+  spec_text spec_version spec_off valid_history guard_history
+  offset_at_position word_at_position position_from_client_units position_to_client_units.
